@@ -457,3 +457,10 @@ PROPS['C17']['verus'] = [{'tmpl': 'serial.rs.tmpl', 'obligations': ['Odk::proces
 PROPS['C17']['functions'] = ['flipdot_testing::odk::Odk::process_message (Verus, extracted verbatim; OdkError extracted with its two source types replaced by stand-ins; SignBus is a stand-in trait with a ghost log)', SERIAL_VERUS_FNS] + PROPS['C17']['functions']
 PROPS['C17']['assumptions'] = PROPS['C17']['assumptions'] + [A_SERIAL_VERUS, A_STDIO, A_USIZE,
     'UNBOUNDED part (Verus, per call of the bridge, frames / lines of any length): Ok => exactly one line was taken off the port, it decoded, the bus was given exactly Message::from(that frame), once, and exactly the answer of the bus (if any) was written back as one frame + CRLF; a line that does not decode is never forwarded and never answered (Err); any Err => the bus was asked at most once and nothing is written unless it was asked. The stand-in SignBus trait logs what it was given and what it answered (ghost); thiserror #[from] conversions are written out. Together with the contract of SerialSignBus::process_message in the same file these are the two halves of one exchange; their composition over a pipe (what one side writes is what the other reads) and the induction over a conversation are NOT done in Verus - the Kani per-exchange lemma (contract-level pipe) and the native serial-path run remain the composition evidence']
+
+# ---- C08: the transfer half of the composition as a Verus lemma over CONTENTS, pages of any size up to the 16-bit offset limit, lists of any length
+PROPS['C08']['verus'] = [{'tmpl': 'vsign.rs.tmpl', 'obligations': ['lemma_item_transfer', 'lemma_pages_transfer', 'lemma_step_settled', 'lemma_c08_pages_arrive_bit_exact', 'c08_lemma_is_not_vacuous',
+                                                              'VirtualSign::process_message', 'VirtualSign::send_data', 'VirtualSign::data_chunks_sent', 'VirtualSign::flush_pixels', 'VirtualSign::receive_pixels', 'VirtualSign::pixels_complete']}]
+PROPS['C08']['functions'] = PROPS['C08']['functions'] + [VSIGN_VERUS_FNS]
+PROPS['C08']['assumptions'] = PROPS['C08']['assumptions'] + [A_VSIGN_VERUS,
+    'UNBOUNDED part (Verus, contracts/c08_transfer.rs): lemma_c08_pages_arrive_bit_exact - from ANY settled state in which the sign accepts pixels (settled = nothing buffered or counted outside a transfer; lemma_step_settled: every step preserves it, the blank state has it), feeding the machine `step` the message sequence C09 prescribes (ReceivePixels request; every page as consecutive chunks of <= 16 bytes at offsets 0, 16, 32, ... restarting per page; the chunk count; PixelsComplete) makes it hold EXACTLY the byte images of the pages sent, in order (contents, not just counts), in state PageLoaded / ShowingPages - for page lists of any length >= 1 and pages of any size up to 65536 bytes that match the configured dimensions, total chunks < 65536. `step` is what the real VirtualSign::process_message is proved equal to in the same file; that the real controller emits that sequence is C09/C10 (Kani, bounded page shapes) - so the bit-exactness statement is unbounded on the sign side and on the composition, and bounded only where C09 is. c08_lemma_is_not_vacuous instantiates it (90x7 sign, two 96-byte pages)']
